@@ -98,9 +98,9 @@ def run(ctx, rep):
         return tr
     LT.run_trace = run_trace
     try:
-        _loop.run_all(ctx, rep, "C17", pred, 5, 50)
+        _loop.run_all(ctx, rep, "C17", pred, 24, 200)
         # keep_history=False: nothing recorded
-        _loop.run_all(ctx, rep, "C17", pred, 1, 5, force=dict(keep_history=False, opt_mode="none"), model=False)
+        _loop.run_all(ctx, rep, "C17", pred, 3, 20, force=dict(keep_history=False, opt_mode="none"), model=False)
     finally:
         LT.run_trace = orig
 
